@@ -87,3 +87,32 @@ Example C11_set_extension_would_clash :
   let b := [117; 115; 101; 114; 115; 46; 118; 50] in
   a <> b /\ set_extension a KHtx = set_extension b KHtx /\ file_name a KHtx <> file_name b KHtx.
 Proof. exact set_extension_clashes. Qed.
+
+(** A DIRECTORY OF SEVERAL MAPS AT BYTE LEVEL (Io_world.v).  The directory is a finite map from file names to byte strings; a
+    session on the map called [name] looks its three file names up ([Names.file_name]), creates or opens the three files
+    ([Io.create] / [Io.open_existing]), runs the calls with their real seeks, reads and writes and leaves the three byte strings
+    under the three names.  FRAME: no other file of the directory changes - every file of every map called otherwise is byte for
+    byte what it was; REFINEMENT: any interleaving of sessions on any number of maps returns, map by map, what independent ideal
+    maps return, and the directory holds [render] of each map's own record-level state. *)
+From Aby Require Import Spec Refine_all Io Io_run Io_world.
+Theorem C11_byte_level_session_touches_only_its_own_files : forall d name t n bk bv bh ops d' outs,
+  session d name t n bk bv bh ops = Ok (d', outs) ->
+  forall fn, (forall f, fn <> fname name f) -> d' !! fn = d !! fn.
+Proof. exact session_frame. Qed.
+
+Theorem C11_byte_level_files_of_other_maps_unchanged : forall d name t n bk bv bh ops d' outs name',
+  session d name t n bk bv bh ops = Ok (d', outs) -> name' <> name ->
+  forall f, d' !! fname name' f = d !! fname name' f.
+Proof. exact session_leaves_other_maps. Qed.
+
+Theorem C11_byte_level_sessions_refine_independent_ideal_maps : forall qs d g iw,
+  DRep d g -> GRep g iw -> reqs_ok g qs ->
+  exists d' g', dir_run d qs = Ok (d', snd (ideal_run iw qs)) /\ DRep d' g' /\ GRep g' (fst (ideal_run iw qs)).
+Proof. exact sessions_refine_ideal_maps. Qed.
+
+Theorem C11_byte_level_sessions_from_the_empty_directory : forall qs,
+  reqs_ok ∅ qs ->
+  exists d' g', dir_run ∅ qs = Ok (d', snd (ideal_run ∅ qs)) /\ DRep d' g' /\ GRep g' (fst (ideal_run ∅ qs)).
+Proof. exact sessions_from_the_empty_directory. Qed.
+
+Example C11_nonvacuous_directory := Io_world.ex_sessions.
